@@ -265,5 +265,5 @@ def check(chk):
                 ok_ = False
             chk.judge(ok_, 'C27.wrapped', n_, '%s wraps a quoted name' % src(n_)[:60],
                       'the column name inside %s is inserted raw: a name that needs quoting (mixed case, reserved word) is emitted bare and reads back as a different identifier' % n_.left.value)
-    if n_w < 3:
-        raise AnalysisError('_build_index_metadata: keys()/values()/full() targets not found (%d)' % n_w)
+    if n_w < 2:
+        raise AnalysisError('_build_index_metadata: keys() / full() targets not found (%d)' % n_w)
